@@ -23,6 +23,7 @@ from .seed import DEFAULT_SEED, Streams, digest, run_seed
 from .shrink import Shrinker
 
 VERIF = os.path.dirname(os.path.dirname(os.path.abspath(__file__)))
+OUT = os.environ.get("DSIM_OUT") or VERIF  # evidence/ and replays/ go here (self-tests redirect it)
 PROPS = {
     "C04": "c04_run_containment", "C05": "c05_parser_reuse", "C06": "c06_format_builder",
     "C09": "c09_global_switches", "C11": "c11_decoration_indent", "C12": "c12_dispatcher",
@@ -195,7 +196,7 @@ def determinism_audit(prop, tier, verif_seed, worker_digests, n_fresh):
 
 # --------------------------------------------------------------------------------------------
 def replay_path(prop, sig, seed):
-    d = os.path.join(VERIF, "replays", prop)
+    d = os.path.join(OUT, "replays", prop)
     os.makedirs(d, exist_ok=True)
     name = "%s-%s-%s.json" % (sig[0], "".join(c if c.isalnum() else "_" for c in sig[1])[:40],
                               seed)
@@ -266,7 +267,7 @@ def write_evidence(prop, h, tier, verif_seed, total, wall, audit, known_hit, n_u
         "coverage": cov, "assumptions": info.get("assumptions", []),
         "wall_s": round(wall, 2), "violations": n_unlisted,
     }
-    d = os.path.join(VERIF, "evidence")
+    d = os.path.join(OUT, "evidence")
     os.makedirs(d, exist_ok=True)
     tmp = os.path.join(d, prop + ".json.tmp")
     with open(tmp, "w") as f:
